@@ -1,5 +1,6 @@
 (* C10 — recovering a signer from arbitrary raw transaction bytes is total and sound.
-   Statements only; proofs live in Tx/RecoverProofs.v (totality) and Tx/RecoverProofs2.v (soundness).
+   Statements only; proofs live in Tx/RecoverProofs.v (totality), Tx/RecoverProofs2.v (soundness) and
+   Tx/RecoverProofs3.v (input elements = specification elements of the returned fields).
 
    The model (Tx/RecoverModel.v) takes the hash function [H] and the secp256k1 library call
    [RD = (s *SignatureData).RecoverDirect] as parameters; every theorem quantifies over them and
@@ -264,3 +265,19 @@ Example C10_nonvacuous_elements_negative_chain :
     Decode bs = Ok (Some (Lst l), pos) /\ map to_tree (firstn 6 l) = legacy_body (norm t) /\
     tx_nonce t = Some 1%Z.
 Proof. cbv zeta. do 5 eexists. split; [vm_compute; reflexivity|]. vm_compute. auto. Qed.
+
+(* Source constants (translator harness/cmd/gen_consts -> Gen/Consts.v, regenerated from /repo on every
+   run): the type byte and the RLP constants the recovery model hard-codes equal what
+   pkg/ethsigner/transaction.go and pkg/rlp/decode.go declare NOW.  The models keep their own
+   literals; this theorem is what breaks when one of them changes in the source. *)
+From FFS Require Gen.Consts Rlp.Model Tx.Model.
+Theorem C10_source_constants :
+  Gen.Consts.ethsigner_TransactionType1559 = Z.of_N (b2n Tx.Model.TransactionType1559) /\
+  Gen.Consts.rlp_shortString = Z.of_N Rlp.Model.shortString /\
+  Gen.Consts.rlp_longString = Z.of_N Rlp.Model.longString /\
+  Gen.Consts.rlp_shortList = Z.of_N Rlp.Model.shortList /\
+  Gen.Consts.rlp_longList = Z.of_N Rlp.Model.longList /\
+  Gen.Consts.rlp_shortToLong = Z.of_N Rlp.Model.shortToLong /\
+  Gen.Consts.rlp_maxInt32 = Z.of_N Rlp.Model.maxInt32.
+Proof. vm_compute. repeat split; reflexivity. Qed.
+Print Assumptions C10_source_constants.
